@@ -536,7 +536,7 @@ def build_lf(prob, tree_newick=None, aln=None, sm=None):
     tree = make_tree(tree_newick or newick(prob["tree"], with_lengths=False))
     lfkw = {}
     if prob.get("bins", 1) > 1:
-        lfkw["bins"] = prob["bins"]
+        lfkw["bins"] = prob.get("bin_names") or prob["bins"]  # a count, or user-chosen bin names in their declared order
         if prob.get("hmm"):
             lfkw["sites_independent"] = False
     if prob.get("expm"):
